@@ -8,7 +8,10 @@ import base64
 from vf.gens import layers, netgen
 
 
-WRAPS = [(b"CreateObject(", b")"), (b"createobject( ", b" )"), (b"x = CreateObject(", b") ;")]
+WRAPS = [(b"CreateObject(", b")"), (b"createobject( ", b" )"), (b"x = CreateObject(", b") ;"),
+         # two nested undecoded contexts, the outer one at a positive offset, and enough text after the blob inside the inner one
+         (b"CreateObject( CreateObject( ", b" zq zq zq zq zq zq zq zq zq zq zq zq zq zq zq zq ) )"),
+         (b"createobject(createobject(createobject(", b" qz qz qz qz qz qz qz qz qz qz qz qz qz qz qz)))")]
 
 
 def rec_single(r, name, type_, label, blob, plain, delims=(b" ", b" "), value=None, wrap_p=0.15):
@@ -55,7 +58,17 @@ def c13_case(r):
     k = r.randrange(13)
     if k == 0:  # every length / padding form through the call forms
         p = rand_payload(r, r.randint(1, 64))
-        return from_encoder(r, r.choice(["atob", "Base64Decode", "FromBase64String"]), p)
+        rec = from_encoder(r, r.choice(["atob", "Base64Decode", "FromBase64String"]), p)
+        if rec is not None and r.random() < 0.3:
+            # an undecodable call of the same form elsewhere in the text must not affect this one
+            junk = {"atob": b" atob('QUI') ", "Base64Decode": b' Base64Decode("Q") ', "FromBase64String": b" FromBase64String('QUJDR') "}[rec["layers"][0]["name"]]
+            if r.random() < 0.5:
+                rec["suffix"] = rec["suffix"] + junk
+                rec["data"] = rec["data"] + junk
+            else:
+                rec["prefix"] = junk + rec["prefix"]
+                rec["data"] = junk + rec["data"]
+        return rec
     if k == 1:  # bare base64, all residues mod 3, random content
         p = rand_payload(r, r.randint(16, 80))
         return from_encoder(r, "b64", p)
@@ -137,6 +150,10 @@ def c13_xor_case(r):
         blob = layers.BY_NAME["psbytes"].enc(p, r)
     tail = r.choice([b" -bxor ", b" -bxor", b" -xor ", b" -BXOR "]) + str(key).encode()
     pre = netgen.offsets_prefix(r)
+    if form != "bytes" and r.random() < 0.35:
+        # the key applies to every conversion call in the text: a second call of the other form, same payload
+        other = layers.BY_NAME["FromHexString" if form == "b64" else "FromBase64String"].enc(p, r)
+        blob = blob + b" ; " + other
     data = (pre + blob + tail) if r.random() < 0.8 else (pre + tail.strip() + b" ; " + blob)
     return data, p, key, form
 
@@ -148,7 +165,14 @@ def c14_case(r):
     k = r.randrange(8)
     if k == 0:  # all byte values, decimal / hex / mixed, runs of 5 / 6 / more
         p = rand_payload(r, r.choice([5, 6, 7, 20]), bytes(range(256)))
-        return from_encoder(r, r.choice(["xmldec", "xmlhex", "xmlmix"]), p)
+        rec = from_encoder(r, r.choice(["xmldec", "xmlhex", "xmlmix"]), p)
+        if rec is not None and not rec.get("wrap") and r.random() < 0.3:
+            # a reference outside 0..255 right next to the run does not belong to it
+            e = layers.BY_NAME[rec["layers"][0]["name"]]
+            nb = r.choice([b"&#256;", b"&#999;", b"&#300;", b"&#xzz;"])
+            side = r.random() < 0.5
+            rec = rec_single(r, e.name, e.type, e.label, rec["blob"], p, (b" " + nb, b" ") if side else (b" ", nb + b" "), wrap_p=0)
+        return rec
     if k == 1:  # leading zeros in decimal references
         p = rand_payload(r, r.randint(5, 10), bytes(range(256)))
         blob = b"".join((b"&#%03d;" % c) if r.random() < 0.5 and c < 200 else (b"&#%d;" % c) for c in p)
